@@ -10,6 +10,7 @@ CONSTANTS
   SingleCounts = {7}
   HistSites = {}
   RotStep = 5
+  Hist16 = FALSE
   Emit = FALSE
   Strict = TRUE
 INVARIANT CInv_Refusal
